@@ -6,6 +6,8 @@ use vstd::prelude::*;
 
 verus! {
 
+//@ include std_specs.inc
+
 // ---------------------------------------------------------------- trusted prelude
 pub assume_specification<T>[ bool::then_some ](b: bool, t: T) -> (r: Option<T>)
     ensures r == (if b { Some(t) } else { None::<T> });
